@@ -227,7 +227,8 @@ pub fn c11(d: &Digest, s: usize, out: &mut Vec<Violation>) {
     }
     // the reducer never waits for an effect: with only effects parked, every accepted action's
     // reducer-context pipeline is complete at a quiescent point
-    let only_effect_stalls = d.prog.stores.iter().all(|c| c.stepper.is_none())
+    let only_effect_stalls = d.prog.iters == 0
+        && d.prog.stores.iter().all(|c| c.stepper.is_none())
         && d.prog.subs.iter().all(|x| x.gate.is_none() && x.sleep_ms == 0)
         && d.prog.acts.values().all(|a| a.red.values().all(|r| r.gate.is_none() && r.sleep_ms == 0));
     if only_effect_stalls && sd.model.policy == Policy::Block && observable(sd) {
@@ -290,6 +291,29 @@ pub fn c12(d: &Digest, s: usize, out: &mut Vec<Violation>) {
                 }
                 _ => {}
             }
+        }
+        // only BreakChain cuts a phase short: Continue, Done and Err leave the rest of the chain alone
+        for hook in 0..3u8 {
+            let called: Vec<u32> = inst
+                .evs
+                .iter()
+                .filter_map(|&i| match &d.ev[i].k {
+                    K::MwB { tag, hook: h, .. } if *h == hook => Some(*tag),
+                    _ => None,
+                })
+                .collect();
+            if called.is_empty() || broke[hook as usize] {
+                continue;
+            }
+            if let Err(e) = check_tags(d, inst, &called, &sd.model.middlewares, &sd.added_mws, s) {
+                v(out, "C12", "chain-cut-without-break", format!("store {s} action {} hook {hook}: {e}", inst.act));
+            }
+        }
+        // an Err is otherwise treated as ContinueAction
+        let h0 = d.hook_events(inst, 0);
+        let err0 = h0.iter().any(|x| x.1 == Verdict::Err as u8);
+        if err0 && !d.vetoed(inst) && !sd.model.reducers.is_empty() && !sd.model.hole_reducers && !inst.evs.iter().any(|&i| matches!(d.ev[i].k, K::RedB { .. })) {
+            v(out, "C12", "err-not-treated-as-continue", format!("store {s}: action {} was kept from the reducers after a before_reduce Err (no DoneAction was returned)", inst.act));
         }
         // DoneAction from before_reduce: no reducer sees the action
         if d.vetoed(inst) && inst.evs.iter().any(|&i| matches!(d.ev[i].k, K::RedB { .. })) {
